@@ -249,10 +249,7 @@ func createCompiledRouteHandler(route *ast.Route, bytecode []byte, wsHub *websoc
 		// Unwrap status-carrying results from guards and `> value :: N`
 		// (see compiler.StatusKey).
 		if body, status, ok := unwrapStatusResult(result); ok {
-			ctx.StatusCode = status
-			ctx.ResponseWriter.Header().Set("Content-Type", "application/json")
-			ctx.ResponseWriter.WriteHeader(status)
-			return json.NewEncoder(ctx.ResponseWriter).Encode(body)
+			return writeEncodedJSON(ctx, status, "application/json", body)
 		}
 
 		// A declared return type is enforced here as it is by the interpreter
@@ -262,9 +259,7 @@ func createCompiledRouteHandler(route *ast.Route, bytecode []byte, wsHub *websoc
 		}
 
 		// Set response
-		ctx.StatusCode = http.StatusOK
-		ctx.ResponseWriter.Header().Set("Content-Type", "application/json")
-		return json.NewEncoder(ctx.ResponseWriter).Encode(result)
+		return writeEncodedJSON(ctx, http.StatusOK, "application/json", result)
 	}
 }
 
@@ -340,30 +335,28 @@ func createRouteHandler(route *ast.Route, interp *interpreter.Interpreter) serve
 		// Check if the response has a non-JSON Content-Type header set by
 		// special response types (text(), html(), blob()).
 		if ct, ok := response.Headers["Content-Type"]; ok && ct != "" {
-			ctx.StatusCode = response.StatusCode
-			ctx.ResponseWriter.Header().Set("Content-Type", ct)
-			ctx.ResponseWriter.WriteHeader(response.StatusCode)
 			switch body := response.Body.(type) {
 			case string:
+				ctx.StatusCode = response.StatusCode
+				ctx.ResponseWriter.Header().Set("Content-Type", ct)
+				ctx.ResponseWriter.WriteHeader(response.StatusCode)
 				_, writeErr := ctx.ResponseWriter.Write([]byte(body))
 				return writeErr
 			case []byte:
+				ctx.StatusCode = response.StatusCode
+				ctx.ResponseWriter.Header().Set("Content-Type", ct)
+				ctx.ResponseWriter.WriteHeader(response.StatusCode)
 				_, writeErr := ctx.ResponseWriter.Write(body)
 				return writeErr
 			default:
 				// Fallback: encode as JSON even with custom content type
-				return json.NewEncoder(ctx.ResponseWriter).Encode(response.Body)
+				return writeEncodedJSON(ctx, response.StatusCode, ct, response.Body)
 			}
 		}
 
 		// Default JSON response, honoring the interpreter's status code
 		// (guards and `> value :: N` set non-200 values).
-		ctx.StatusCode = response.StatusCode
-		ctx.ResponseWriter.Header().Set("Content-Type", "application/json")
-		if response.StatusCode != http.StatusOK {
-			ctx.ResponseWriter.WriteHeader(response.StatusCode)
-		}
-		return json.NewEncoder(ctx.ResponseWriter).Encode(response.Body)
+		return writeEncodedJSON(ctx, response.StatusCode, "application/json", response.Body)
 	}
 }
 
@@ -865,6 +858,22 @@ func sendClientError(ctx *server.Context, message string) error {
 	return json.NewEncoder(ctx.ResponseWriter).Encode(map[string]interface{}{
 		"error": message,
 	})
+}
+
+// writeEncodedJSON sends body as JSON with the given status. The body is encoded before the
+// status line is committed: a value JSON cannot carry (NaN, +Inf, an unsupported type) used to
+// fail after a success status such as 201 was already out, so the client saw 2xx for a fault.
+// The bytes are those json.Encoder.Encode produces (the encoding followed by a newline).
+func writeEncodedJSON(ctx *server.Context, status int, contentType string, body interface{}) error {
+	payload, err := json.Marshal(body)
+	if err != nil {
+		return writeInternalError(ctx, fmt.Errorf("failed to encode response: %w", err))
+	}
+	ctx.StatusCode = status
+	ctx.ResponseWriter.Header().Set("Content-Type", contentType)
+	ctx.ResponseWriter.WriteHeader(status)
+	_, err = ctx.ResponseWriter.Write(append(payload, '\n'))
+	return err
 }
 
 // writeInternalError logs the full error server-side and sends a generic 500 to
